@@ -234,7 +234,7 @@ def _random_chunk(args):
     return out
 
 
-def wall_steps() -> list[dict]:
+def wall_steps(rep=None) -> list[dict]:
     """real (wall) time passes inside an attempt while the monotonic clock stands still - a step of
     the wall clock as seen from the run: no influence on any decision"""
     out = []
@@ -250,6 +250,18 @@ def wall_steps() -> list[dict]:
               {"e": "deliver", "mode": "exec", "gap": 0}]
         obs = retryenv.run_scenario(cfg, ev, entry=entry, place="ctor", async_callbacks=False)
         out.append({"cfg": full_cfg(cfg), "ev": obs, "variant": {"entry": entry, "wall_step_s": 1.3}, "script": ev})
+        # the same run without the step: the two must be the same run
+        ev0 = [dict(e) for e in ev]
+        ev0[0].pop("wallstep")
+        obs0 = retryenv.run_scenario(cfg, ev0, entry=entry, place="ctor", async_callbacks=False)
+        if rep is not None and obs != obs0:
+            rep.add_violation("C02:wall-clock-influences-run", "C02/wall-clock-influences-run", {
+                "origin": "same scenario with and without 1.3 s of wall-clock time passing inside the first "
+                          "attempt while the monotonic clock stands still",
+                "cfg": full_cfg(cfg), "variant": {"entry": entry}, "observed": obs,
+                "observed_other_wall_clock": obs0,
+                "how": "harness.retrycheck.wall_steps(): the operation sleeps for real (time.sleep of the "
+                       "stdlib, not the virtual clock) during attempt 1"})
     return out
 
 
@@ -431,7 +443,7 @@ def check(prop: str, tier: str) -> Report:
     if prop in ("C01", "C03", "C05"):
         rand += long_runs()
     if prop == "C02":
-        rand += wall_steps()
+        rand += wall_steps(rep)
     walldiff = [t for t in mism if t.get("walldiff")]
     mism = [t for t in mism if not t.get("walldiff")]
     if prop == "C02":
